@@ -507,7 +507,18 @@ NONDET_CALLS = {
     "object.__repr__": "address in default repr",
     "socket.gethostname": "host",
     "os.getcwd": "working directory",
+    "os.path.abspath": "working directory (a job runs with its cache directory as cwd, so the cache root enters the digest)",
+    "os.path.realpath": "working directory / file-system layout",
+    "os.path.relpath": "working directory",
+    "os.path.expanduser": "home directory",
+    "os.path.expandvars": "environment",
+    "Path.cwd": "working directory",
+    "pathlib.Path.cwd": "working directory",
+    "Path.home": "home directory",
+    "pathlib.Path.home": "home directory",
 }
+# method names that read the same ambient state whatever the receiver's (unresolved) type is
+AMBIENT_METHODS = {"resolve": "working directory / file-system layout", "absolute": "working directory", "expanduser": "home directory", "cwd": "working directory", "home": "home directory"}
 
 
 def hashing_closure(A: Analysis) -> list[FuncInfo]:
@@ -560,6 +571,9 @@ def nondeterminism_rule(A: Analysis, col: Collector, rule: str):
                     col.fail(rule, f.qualname, "id-flows-into-hash", "the value of id() is used other than as the memo key on the hashing path", A.loc(c))
             else:
                 col.fail(rule, f.qualname, f"nondeterministic-source:{which}", f"`{norm(c, 50)}` ({NONDET_CALLS[which]}) is evaluated on the hashing path: the identity differs between sessions", A.loc(c))
+        for c in A.calls(f):
+            if isinstance(c.func, ast.Attribute) and c.func.attr in AMBIENT_METHODS and not (A.callee_names(c, f) & set(NONDET_CALLS)) and f.module.name == HASH_MOD:
+                col.fail(rule, f.qualname, f"nondeterministic-source:.{c.func.attr}()", f"`{norm(c, 50)}` ({AMBIENT_METHODS[c.func.attr]}) is evaluated on the hashing path: the identity of the same input differs between working directories / cache roots", A.loc(c))
         for a in walk_own(f.node):
             if isinstance(a, ast.Attribute) and dotted(a) in ("os.environ",) and f.cls is None and f.name.startswith("bytes_repr"):
                 col.fail(rule, f.qualname, "environment-in-serializer", "a serializer reads os.environ", A.loc(a))
@@ -592,6 +606,8 @@ def ordering_rule(A: Analysis, col: Collector, rule: str):
                     ok = True
                 elif key is not None and any(q.endswith("hash_single") or q.endswith("hash_object") for k in ast.walk(key) if isinstance(k, ast.Call) for q in A.callee_names(k, f)):
                     ok = True
+        if why:
+            ok = False
         if ok:
             col.ok(rule, f"{f.name}: set elements are ordered by their serialised hashes (a total order independent of element `<` and of the hash seed)", A.loc(f.node))
         elif why:
@@ -602,10 +618,37 @@ def ordering_rule(A: Analysis, col: Collector, rule: str):
         raise AnalysisError("C07: set serializer not found")
     m = A.func(f"{HASH_MOD}.bytes_repr_mapping_contents")
     col.scope(m.qualname)
-    loops = [n for n in walk_own(m.node) if isinstance(n, ast.For)]
-    if loops and isinstance(loops[0].iter, ast.Call) and dotted(loops[0].iter.func) == "sorted":
-        col.ok(rule, "bytes_repr_mapping_contents iterates `sorted(mapping)` (insertion order does not matter; keys are assumed mutually comparable)", A.loc(loops[0]))
-        col.assume("mapping keys hashed by pydra are mutually comparable (str in practice); sorted(mapping) over partially ordered keys would have the set problem")
+    mparam = m.params()[0].arg
+
+    def _serialises(node):
+        return any(q.endswith("hash_single") or q.endswith("bytes_repr") or q.endswith("hash_object") for k in ast.walk(node) if isinstance(k, ast.Call) for q in A.callee_names(k, m))
+
+    def _over_param(node):
+        return any(isinstance(k, ast.Name) and k.id == mparam for k in ast.walk(node))
+
+    raw = canon = None
+    for c in A.calls(m):
+        if isinstance(c.func, ast.Name) and c.func.id == "sorted" and c.args and _over_param(c.args[0]):
+            a0 = c.args[0]
+            key = kwarg(c, "key")
+            if isinstance(a0, (ast.GeneratorExp, ast.ListComp)):
+                elt = a0.elt
+                first = elt.elts[0] if isinstance(elt, ast.Tuple) and elt.elts else elt
+                # (serialised key, value) pairs: ordered by the first component only when a key= selects it
+                # (otherwise a tie -- impossible for distinct keys -- would compare the values)
+                if _serialises(first):
+                    canon = c
+                else:
+                    raw = c
+            elif key is not None and _serialises(key):
+                canon = c
+            else:
+                raw = c
+    iterated_plain = [n for n in walk_own(m.node) if isinstance(n, (ast.For, ast.comprehension)) and _over_param(n.iter) and not any(isinstance(k, ast.Call) and isinstance(k.func, ast.Name) and k.func.id == "sorted" for k in ast.walk(n.iter)) and not any(is_within(n, c) for c in ([canon] if canon else []))]
+    if raw is not None:
+        col.fail(rule, m.qualname, "mapping-order-by-key-lt", f"`{norm(raw)}` orders the keys by their own `<`, which is only a partial order for frozenset keys (and tuples containing them) and raises TypeError for mixed key types: equal dicts hash differently depending on their insertion order", A.loc(raw))
+    elif canon is not None and not iterated_plain:
+        col.ok(rule, "bytes_repr_mapping_contents orders the items by their serialised keys (a total order independent of key `<`, insertion order and the hash seed)", A.loc(canon))
     else:
         col.fail(rule, m.qualname, "mapping-iterated-unsorted", "bytes_repr_mapping_contents iterates the mapping in insertion order", A.loc(m.node))
     # generic object serializer: dict of attributes goes through the mapping helper
@@ -662,7 +705,7 @@ def identity_readset_rule(A: Analysis, col: Collector, rule: str):
     "C07",
     technique="nondeterminism-source analysis over the call-graph closure of the hashing entry points; canonical-order rule for unordered containers; read-set of the task identity",
     decides="(a) no value of hash()/id()/pid/time/uuid/random/os.environ flows into a digest on the hashing path (id() only as memo key); (b) every set serializer orders elements by serialised hashes, not by element `<`; mappings, object attributes and per-field hashes go through sorted iteration; (c) the task identity reads no cache-root / worker / submitter / environment attribute; the job's memoised checksum survives __getstate__.",
-    not_decided="third-party serializers (fileformats byte_chunks), bit-level stability of struct/tobytes across platforms, comparability of mapping keys (assumption).",
+    not_decided="third-party serializers (fileformats byte_chunks), bit-level stability of struct/tobytes across platforms.",
     level_note="Trusted: closure computed by class-hierarchy analysis; serializer registration recognised through the register_serializer / singledispatch decorators.",
 )
 def check_c07(A: Analysis, col: Collector):
@@ -696,7 +739,21 @@ def file_key_rule(A: Analysis, col: Collector, rule: str):
             producers.append(f.qualname)
     col.notes["persistent_key_producers"] = producers
     for y in keys:
-        stat_fields = {n.attr for n in ast.walk(y.value) if isinstance(n, ast.Attribute) and n.attr.startswith("st_")}
+        stat_fields = set()
+        combined = set()
+        for n in ast.walk(y.value):
+            if isinstance(n, ast.Attribute) and n.attr.startswith("st_"):
+                comb = False
+                for p_ in parents(n):
+                    if p_ is y.value:
+                        break
+                    if isinstance(p_, ast.Call) and (dotted(p_.func) or "") in ("max", "min", "sum", "abs", "round", "int", "hash"):
+                        comb = True
+                    if isinstance(p_, (ast.BinOp, ast.BoolOp, ast.IfExp, ast.Compare)) and not (isinstance(p_, ast.BinOp) and isinstance(p_.op, ast.Add) and isinstance(p_.left, (ast.Tuple, ast.Call)) ):
+                        comb = True
+                (combined if comb else stat_fields).add(n.attr)
+        if combined - stat_fields:
+            col.notes["stat_fields_only_in_combined_form"] = sorted(combined - stat_fields)
         reads_path = "repr(" in norm(y.value) or "str(" in norm(y.value) or "fspath" in norm(y.value)
         if reads_path:
             col.ok(rule, "the persistent key contains the file-system paths", A.loc(y))
@@ -706,7 +763,38 @@ def file_key_rule(A: Analysis, col: Collector, rule: str):
             if stat_fields & need:
                 col.ok(rule, f"history step `{row}` changes the key (reads {sorted(stat_fields & need)})", A.loc(y))
             else:
-                col.fail(rule, fn.qualname, "key-insensitive:" + row.split(",")[0].replace(" ", "-").replace("/", ""), f"the persistent-cache key reads only {sorted(stat_fields)} per path; under `{row}` none of them changes, so the stored hash of the old content is returned", A.loc(y))
+                extra = f" ({sorted(combined - stat_fields)} enter the key only combined with other values, e.g. through max(): a change of one of them can be masked by the other)" if (combined - stat_fields) & need else ""
+                col.fail(rule, fn.qualname, "key-insensitive:" + row.split(",")[0].replace(" ", "-").replace("/", ""), f"the persistent-cache key reads only {sorted(stat_fields)} per path as independent components{extra}; under `{row}` the key need not change, so the stored hash of the old content is returned", A.loc(y))
+    # which paths are stat-ed: the functions that produce the stats entering the key
+    producers_fns = [fn]
+    for y in keys:
+        for nm in {k.id for k in ast.walk(y.value) if isinstance(k, ast.Name)}:
+            for kind, d in A.rs.local_defs(fn).get(nm, []):
+                for c in ([k for k in ast.walk(d) if isinstance(k, ast.Call)] if isinstance(d, ast.AST) else []):
+                    for g in A.rs.resolve_call(c, fn).repo_targets:
+                        if isinstance(g, FuncInfo) and g.module.name == HASH_MOD and g not in producers_fns:
+                            producers_fns.append(g)
+    stat_calls = {"lstat": [], "stat": []}
+    walks = []
+    for g in producers_fns:
+        col.scope(g.qualname)
+        for c in A.calls(g):
+            if isinstance(c.func, ast.Attribute) and c.func.attr in stat_calls and not c.args:
+                stat_calls[c.func.attr].append(c)
+            d_ = dotted(c.func) or ""
+            if d_ in ("os.stat", "os.lstat"):
+                stat_calls[d_[3:]].append(c)
+            if (isinstance(c.func, ast.Attribute) and c.func.attr in ("rglob", "walk")) or d_ in ("os.walk", "os.fwalk"):
+                walks.append(c)
+    A.anchor("stat calls feeding the persistent key", stat_calls["lstat"] + stat_calls["stat"])
+    if walks:
+        col.ok(rule, f"the key stats cover everything nested within directory paths (`{norm(walks[0], 40)}`): rewriting a nested file changes the key", A.loc(walks[0]))
+    else:
+        col.fail(rule, fn.qualname, "key-ignores-nested-directory-content", "only the top-level paths of the file-set are stat-ed: rewriting a file inside a Directory input changes none of the directory's own mtime/ctime/size, so the stored hash of the old tree content is returned", A.loc(keys[0]))
+    if stat_calls["stat"]:
+        col.ok(rule, "the key stats follow symbolic links (stat() besides lstat()): rewriting a link's target changes the key", A.loc(stat_calls["stat"][0]))
+    else:
+        col.fail(rule, fn.qualname, "key-ignores-symlink-target", "the paths are stat-ed with lstat() only: for a file given through a symbolic link the key holds the link's stats, which do not change when the target is rewritten, so the stored hash of the old content is returned", A.loc(keys[0]))
     # recency guard promised by the docs
     gh = A.func(f"{HASH_MOD}.PersistentCache.get_or_calculate_hash")
     hs = A.func(f"{HASH_MOD}.hash_single")
@@ -731,6 +819,15 @@ def file_key_rule(A: Analysis, col: Collector, rule: str):
                 col.ok(rule, "get_or_calculate_hash stores exactly the freshly calculated hash, under the key's lock", A.loc(w))
                 continue
         col.fail(rule, gh.qualname, "stored-hash-provenance", "the value written to the persistent cache is not the freshly calculated hash under the lock", A.loc(w))
+    # the store is written in place (write_bytes is not atomic): every read of it happens under the key's lock
+    reads = [c for c in A.calls(gh) if isinstance(c.func, ast.Attribute) and c.func.attr in ("read_bytes", "read_text", "open")]
+    A.anchor("read of the persistent store in get_or_calculate_hash", reads)
+    for r in reads:
+        locked = any(isinstance(p_, ast.With) and any(isinstance(it.context_expr, ast.Call) and (dotted(it.context_expr.func) or "").endswith("Lock") for it in p_.items) for p_ in parents(r))
+        if locked:
+            col.ok(rule, f"`{norm(r)}` reads the stored hash under the key's file lock", A.loc(r))
+        else:
+            col.fail(rule, gh.qualname, "store-read-outside-lock", f"`{norm(r)}` reads the stored hash without holding the key's lock: the writer fills the file in place under the lock, so a concurrent process can read an empty / partial value and take it for the hash of the file", A.loc(r))
 
 
 @prop(
